@@ -1080,7 +1080,9 @@ def gen_item(rel, kind, name, extra=''):
         head = f'// T6b: item taken from {rel}:{line} (attributes and comments dropped)\n'
         if kind == 'struct':
             txt = re.sub(r'\n\s*\n', '\n', ''.join(b.text for b in body))
-            return head + txt + '\n'
+            # keep the item's own visibility (`pub struct`): private items stay private
+            vis = 'pub ' if idx >= 1 and toks[s[idx - 1]].kind == 'ident' and toks[s[idx - 1]].text == 'pub' else ''
+            return head + vis + txt + '\n'
         eq = next(i for i, b in enumerate(body) if b.kind == 'punct' and b.text == '=')
         colon = next(i for i, b in enumerate(body) if b.kind == 'punct' and b.text == ':')
         ty = ''
